@@ -43,6 +43,7 @@ def graph_finder(scratch, failure):
 CRATE_FINDERS = {
     # unit -> (host source file whose child module the finder becomes, finder test file)
     "runplan": ("src/app/run.rs", "units/runplan/finder_test.rs"),
+    "log": ("src/app/log.rs", "units/log/finder_test.rs"),
 }
 CACHE = os.path.join(U.VERIF, ".cache")
 
